@@ -210,22 +210,31 @@ Qed.
 (* ------------------------------------------------------------------------------------------ *)
 (* what one register update may change                                                         *)
 (* ------------------------------------------------------------------------------------------ *)
+(* the voter set changes by at most one member per update: unchanged, one node added, or one replica
+   that was marked removing dropped (raft single-server membership change) *)
+Definition small_step (b v : rinfo) : Prop :=
+  (forall x, In x (raft_nodes v) <-> In x (raft_nodes b)) \/
+  (exists n, ~ In n (raft_nodes b) /\ forall x, In x (raft_nodes v) <-> In x (raft_nodes b) \/ x = n) \/
+  (exists n, In n (raft_nodes b) /\ In n (keys (removings b)) /\
+             forall x, In x (raft_nodes v) <-> In x (raft_nodes b) /\ x <> n).
+
 Record trans (b v : rinfo) : Prop := mkTrans {
   tr_max  : max_id b <= max_id v;                                   (* MaxRaftID never decreases *)
   tr_ids  : forall n id, In (n, id) (raft_ids v) -> In (n, id) (raft_ids b) \/ max_id b < id;
                                                                     (* an id is kept or is a fresh one above MaxRaftID *)
   tr_add  : forall x y, In x (raft_nodes v) -> ~ In x (raft_nodes b) ->
                         In y (raft_nodes v) -> ~ In y (raft_nodes b) -> x = y;   (* at most one node added *)
-  tr_drop : forall x, In x (raft_nodes b) -> ~ In x (raft_nodes v) -> In x (keys (removings b))
+  tr_drop : forall x, In x (raft_nodes b) -> ~ In x (raft_nodes v) -> In x (keys (removings b));
                                                                     (* only a replica marked removing is dropped *)
+  tr_small : small_step b v
 }.
 
 Lemma trans_refl : forall i, trans i i.
-Proof. intros. constructor; [lia|auto|intros; contradiction|intros; contradiction]. Qed.
+Proof. intros. constructor; [lia|auto|intros; contradiction|intros; contradiction|left; tauto]. Qed.
 Lemma trans_set_epoch_r : forall b v e, trans b v -> trans b (set_epoch v e).
-Proof. intros b v e [H1 H2 H3 H4]. constructor; simpl; assumption. Qed.
+Proof. intros b v e [H1 H2 H3 H4 H5]. constructor; simpl; assumption. Qed.
 Lemma trans_mark : forall i n now, trans i (mark_removing i n now).
-Proof. intros. constructor; simpl; [lia|auto|intros; contradiction|intros; contradiction]. Qed.
+Proof. intros. constructor; simpl; [lia|auto|intros; contradiction|intros; contradiction|left; simpl; tauto]. Qed.
 Lemma trans_add : forall i n, trans i (add_node i n).
 Proof.
   intros. constructor; simpl.
@@ -236,6 +245,10 @@ Proof.
   - intros x y Hx Hnx Hy Hny. rewrite in_app_iff in Hx, Hy. simpl in Hx, Hy.
     destruct Hx as [Hx|[Hx|[]]]; [contradiction|]. destruct Hy as [Hy|[Hy|[]]]; [contradiction|]. congruence.
   - intros x Hx Hnx. exfalso. apply Hnx. rewrite in_app_iff. left. exact Hx.
+  - destruct (in_dec N.eq_dec n (raft_nodes i)) as [Hin|Hin].
+    + left. simpl. intros x. rewrite in_app_iff. simpl. split; [intros [H|[H|[]]]; [exact H|subst; exact Hin]|tauto].
+    + right. left. exists n. split; [exact Hin|]. simpl. intros x. rewrite in_app_iff. simpl.
+      split; [intros [H|[H|[]]]; auto|intros [H|H]; auto].
 Qed.
 
 (* a value obtained by dropping replicas that are marked removing *)
@@ -260,13 +273,28 @@ Proof.
   - assert (H := len_removings_drop v n). simpl in H. lia.
   - intros x Hx. rewrite keys_aremove in Hx. apply filter_In in Hx. apply H7. tauto.
 Qed.
-Lemma shrinks_trans : forall b v, shrinks b v -> trans b v.
+Lemma shrinks_trans : forall b v, len (removings b) <= 1 -> shrinks b v -> trans b v.
 Proof.
-  intros b v [H1 H2 H3 H4 H5 H6 H7]. constructor.
+  intros b v Hl [H1 H2 H3 H4 H5 H6 H7]. constructor.
   - lia.
   - intros n id Hi. left. apply H3. exact Hi.
   - intros x y Hx Hnx. exfalso. apply Hnx. apply H4. exact Hx.
   - exact H5.
+  - destruct (removings b) as [|[n d] [|e2 rest]] eqn:Er.
+    + left. intros x. split; [apply H4|]. intros Hx. destruct (in_dec N.eq_dec x (raft_nodes v)) as [H|H]; [exact H|].
+      exfalso. apply (H5 x Hx H).
+    + destruct (in_dec N.eq_dec n (raft_nodes v)) as [Hv|Hv].
+      * left. intros x. split; [apply H4|]. intros Hx. destruct (in_dec N.eq_dec x (raft_nodes v)) as [H|H]; [exact H|].
+        specialize (H5 x Hx H). simpl in H5. destruct H5 as [H5|[]]. subst. exact Hv.
+      * destruct (in_dec N.eq_dec n (raft_nodes b)) as [Hb|Hb].
+        -- right. right. exists n. split; [exact Hb|]. split; [rewrite Er; simpl; left; reflexivity|].
+           intros x. split.
+           ++ intros Hx. split; [apply H4; exact Hx|]. intros ->. contradiction.
+           ++ intros [Hx Hne]. destruct (in_dec N.eq_dec x (raft_nodes v)) as [H|H]; [exact H|].
+              specialize (H5 x Hx H). simpl in H5. destruct H5 as [H5|[]]. congruence.
+        -- left. intros x. split; [apply H4|]. intros Hx. destruct (in_dec N.eq_dec x (raft_nodes v)) as [H|H]; [exact H|].
+           specialize (H5 x Hx H). simpl in H5. destruct H5 as [H5|[]]. subst. contradiction.
+    + exfalso. unfold len in Hl. simpl in Hl. lia.
 Qed.
 
 Definition att_ok (replica : N) (a : attempt) : Prop :=
@@ -444,7 +472,7 @@ Proof.
   - split; [exact Hw|]. split.
     + destruct Hi as [_ [Hl _]]. assert (H := sh_rm _ _ Hs). lia.
     + apply is_quorum_spec. exact Eq.
-  - apply shrinks_trans. exact Hs.
+  - apply shrinks_trans; [destruct Hi as [_ [Hl _]]; exact Hl|exact Hs].
   - intros a Hb Hv. apply HP; [exact Hb|]. rewrite Hv. exact Hs.
 Qed.
 
@@ -792,9 +820,10 @@ Proof.
 Qed.
 Lemma trans_perm : forall i l, Permutation l (raft_nodes i) -> trans i (with_nodes i l).
 Proof.
-  intros i l Hp. constructor; simpl; [lia|auto| |].
+  intros i l Hp. constructor; simpl; [lia|auto| | |].
   - intros x y Hx Hnx. exfalso. apply Hnx. eapply Permutation_in; [exact Hp|exact Hx].
   - intros x Hx Hnx. exfalso. apply Hnx. eapply Permutation_in; [apply Permutation_sym; exact Hp|exact Hx].
+  - left. simpl. intros x. split; intros H; [eapply Permutation_in; [exact Hp|exact H]|eapply Permutation_in; [apply Permutation_sym; exact Hp|exact H]].
 Qed.
 
 Lemma swap_loop_spec : forall replica (P : attempt -> Prop) leader orig idx ns r moved atts0,
